@@ -79,6 +79,7 @@ func TestCheck(t *testing.T) {
 	forkDepthLimit := ev.Pick(r, 1, 2) // fork pairs are enumerated from every state of depth <= this
 	var states, transitions int64
 	var mu sync.Mutex
+	noopKinds := map[string]int{} // store/revert transitions per kind of no-op-entry block
 	for _, newState := range []bool{false, true} {
 		for ci, vc := range versionConfigs {
 			if r.Quick() && ci >= 2 {
@@ -88,16 +89,33 @@ func TestCheck(t *testing.T) {
 			newState := newState
 			st := hist.Explore(hist.Config{
 				NewState: newState, Depth: depth, VersionAt: vc.at, Run: r, Label: label,
+				// shared alphabet + no-op-entry blocks (noop.go). Quick: a no-op-entry block is the LAST block of a chain
+				// (it can be reverted, nothing is stored on top of it by the search; fork pairs do that); thorough: at most
+				// one no-op-entry block per chain, anywhere.
+				Alphabet: extAlphabet,
+				Filter: func(p *hist.Node, nm chain.Named) bool {
+					if !chainHasNoop(p.Path) {
+						return true
+					}
+					return !r.Quick() && !isNoop(nm.Name)
+				},
 				OnRevertFail: func(p *hist.Node, err error) {
 					r.Violate("revert-head-fails "+label+" "+hist.LastOp(p)+p.Exotic(), map[string]any{"path": p.PathString(), "err": err.Error()})
 				},
 				OnStore: func(p, c *hist.Node, nm chain.Named) {
 					r.Add("evaluations", 2)
+					if isNoop(nm.Name) {
+						r.Add("noop_entry_block_transitions", 1)
+						mu.Lock()
+						noopKinds[nm.Name]++
+						mu.Unlock()
+					}
 					checkUndo(r, p, c, nm, newState, label)
 				},
 				Visit: func(n *hist.Node, bc *blockchain.Blockchain) {
-					if len(n.Path) <= forkDepthLimit {
-						checkForks(r, n, vc.at, newState, label)
+					if len(n.Path) <= forkDepthLimit && (!r.Quick() || !hasNoop(n.Path)) {
+						// fork pairs with a no-op-entry block: from the states of depth <= 1 in both tiers
+						checkForks(r, n, vc.at, newState, label, len(n.Path) <= 1)
 					}
 				},
 			})
@@ -108,12 +126,18 @@ func TestCheck(t *testing.T) {
 			r.Sample(map[string]any{"config": label, "states": st.States, "transitions": st.Transitions, "per_depth": st.PerDepth})
 		}
 	}
+	r.Set("noop_entry_block_transitions_by_kind", noopKinds)
+	r.Set("noop_entry_block_kinds", int64(len(noopKinds)))
 	r.Set("states", states)
 	r.Set("transitions", transitions)
 	r.Set("traces_validated_against_impl", transitions)
 	r.Set("distinct_nontrivial", states)
 	r.Set("rule", fmt.Sprintf("BFS over {store, revert} histories to depth %d; for EVERY store transition S->S.b the block is reverted (a) by a fresh node and (b) by the same long-lived node, and the KV image must equal image(S) "+
-		"(on residue: full Reader-API sweep + storing a further block must agree with the never-stored twin); fork pairs X,Y of depth<=2 from every state of depth<=%d: S.X.revert^|X|.Y == S.Y, on one long-lived node and (|X|=1) across process lifetimes: graceful shutdown + restart after X, ungraceful restart after Y", depth, forkDepthLimit))
+		"(on residue: full Reader-API sweep + storing a further block must agree with the never-stored twin); fork pairs X,Y of depth<=2 from every state of depth<=%d: S.X.revert^|X|.Y == S.Y, on one long-lived node and (|X|=1, pairs of the shared alphabet) across process lifetimes: graceful shutdown + restart after X, ungraceful restart after Y. "+
+		"Block alphabet = shared alphabet of mc/chain + C04-local NO-OP-ENTRY blocks (a diff entry that sets a value to what it already is: nonce = current nonce, nonce 0 of a contract deployed by the same block, "+
+		"replace with the current class for a Cairo-0 and a Sierra contract, an already declared Cairo-0 class listed again, no-op nonce+class entries next to a real storage write; storage no-ops are in the shared alphabet): "+
+		"%s; in fork pairs (from states of depth<=1) at most one of x,y is such a block (as y only after a one-block branch; [x, no-op] is the store/revert transition of state S.x)", depth, forkDepthLimit,
+		ev.Pick(r, "from every state whose chain has none, as the last block of the chain (stored, reverted, image compared)", "at most one per chain, at any position")))
 	r.Finish()
 }
 
@@ -189,13 +213,16 @@ func compareWithTwin(r *ev.Run, how string, p *hist.Node, d *memory.Database, bc
 }
 
 // checkForks: S.X.revert^|X|.Y must be the node S.Y, for X of depth 1 and 2, on one long-lived node.
-func checkForks(r *ev.Run, s *hist.Node, at func(uint64) string, newState bool, label string) {
+func checkForks(r *ev.Run, s *hist.Node, at func(uint64) string, newState bool, label string, withNoop bool) {
 	var number uint64
 	var pst *chain.State
 	if h := s.Head(); h != nil {
 		number, pst = h.Block.Number+1, h.State
 	}
 	alpha := chain.Alphabet(pst, number, at(number))
+	if withNoop {
+		alpha = extAlphabet(pst, number, at(number))
+	}
 	// direct children images (S.Y on a fresh node)
 	type kid struct {
 		e   *chain.Entry
@@ -227,7 +254,11 @@ func checkForks(r *ev.Run, s *hist.Node, at func(uint64) string, newState bool, 
 			continue
 		}
 		// X branches: [x] and [x, x2] for every x2 valid after x
+		// No-op-entry blocks: pairs with exactly one such block among x, x2, y, and not as x2 - the branch
+		// [x, no-op] starts with the store/revert of the no-op block on top of S.x, which checkUndo performs for every
+		// state (fresh and long-lived node) and which must restore the image of S.x byte for byte.
 		branches := [][]*chain.Entry{{kids[xi].e}}
+		xNoop := b2i(isNoop(alpha[xi].Name))
 		for _, nm2 := range chain.Alphabet(kids[xi].e.State, number+1, at(number+1)) {
 			if e2, err := chain.Build(kids[xi].e, nm2.Spec); err == nil {
 				branches = append(branches, []*chain.Entry{kids[xi].e, e2})
@@ -235,9 +266,18 @@ func checkForks(r *ev.Run, s *hist.Node, at func(uint64) string, newState bool, 
 		}
 		for _, br := range branches {
 			for yi := range alpha {
+				n := xNoop + b2i(isNoop(alpha[yi].Name))
+				if n > 1 || (isNoop(alpha[yi].Name) && len(br) > 1) {
+					continue // (a no-op-entry block as Y: after branches of one block)
+				}
 				if kids[yi] != nil && yi != xi {
+					if n > 0 {
+						r.Add("fork_pairs_with_noop_entry_block", 1)
+					}
 					jobs = append(jobs, job{xi, yi, br, false})
-					if len(br) == 1 {
+					// (the across-restarts variant exercises the event-filter snapshot, which a state-diff entry cannot
+					// influence: pairs of the shared alphabet only)
+					if len(br) == 1 && n == 0 {
 						jobs = append(jobs, job{xi, yi, br, true})
 					}
 				}
@@ -297,6 +337,13 @@ func checkForks(r *ev.Run, s *hist.Node, at func(uint64) string, newState bool, 
 			r.Outcome("fork-converges-internal-residue-only")
 		}
 	})
+}
+
+func b2i(b bool) int {
+	if b {
+		return 1
+	}
+	return 0
 }
 
 func brName(br []*chain.Entry) string {
